@@ -104,7 +104,8 @@ class TetPair(Scenario):
         return out
 
     def observable(self, out):
-        return [out["hit"], 0 if out["poly"] is None else len(out["poly"]), out["area"]]
+        # the vertex COUNT is not observable: near-duplicate vertices are merged or kept depending on rounding
+        return [out["hit"], out["area"]]
 
     def check(self, cx, inp, out, ob):
         L = self.L
